@@ -23,8 +23,8 @@ class Decoder16b(Decoder):
         # lines hold w - padding_w pixels and there are h - padding_h of them
         canvas_w = w
         canvas_h = h
-        w = w - padding_w
-        h = h - padding_h
+        w = max(w - padding_w, 0)
+        h = max(h - padding_h, 0)
         width = w*2
 
         # Create a white image
